@@ -216,6 +216,14 @@ def run_check(prop, tier, replay=None):
         'assumptions': prop.trusted_base,
         'wall_s': wall, 'violations': violations,
     }
+    cov = ev['coverage']
+    if discharged < 1:
+        # schema: a proof-level record needs discharged >= 1; a run whose proof is broken reports the counts
+        # under other names and falls back to the exploration-style keys (or to level 'other')
+        cov['obligations_total'] = cov.pop('obligations'); cov['discharged_count'] = cov.pop('discharged')
+        if cov['evaluations'] < 1 or cov['distinct_nontrivial'] < 2:
+            ev['level'] = 'other'
+            cov['explanation'] = 'proof obligations broken and no correspondence case could be run: ' + json.dumps(broken[:3])[:1500]
     core.write_json(os.path.join(core.EVID, prop.id + '.json'), ev)
     for l in lines_out: print(l)
     print('%s %s: obligations=%d discharged=%d evaluations=%d distinct=%d violations=%d wall=%.1fs' % (
